@@ -210,5 +210,6 @@ def check(P, R, tier):
     # certificate (distinct authors, stake >= quorum): C19.G1/G2 and the >= comparison with the threshold (C17.O6)
     from ..common import fold
     fold(R, P, "c19", ("C19.G1", "C19.G2", "C19.G4"), "C10.P7", 8)
-    fold(R, P, "c04", ("C04.S2",), "C10.P7", 20)
+    # (C04.S1: no vote or timeout reaches an aggregator, and no certificate reaches advance_round, before it verified)
+    fold(R, P, "c04", ("C04.S1", "C04.S2"), "C10.P7", 30)
     fold(R, P, "c17", ("C17.O1", "C17.O6"), "C10.P7", 8)
